@@ -25,6 +25,7 @@ SIGMA = [
     ('nop',), ('ldi', 'a', ('lab', 'K0')), ('m2', 5, ('lab', 'K0')),       # m2: a macro of two 12-bit steps (4 bytes)
     ('jmp', ('lab', 'G0')), ('jmp', ('lab+', 'G1', 1)), ('brr', ('lab', 'G0')), ('brr', ('lab', 'G1')),
     ('data', 1, [('lab', 'G1')]), ('data', 2, [('lab', 'G0'), ('lab+', '_f0', 2)]),
+    ('rawbytes', '    "Hi"', [0x48, 0x69, 0]),          # an embedded string (3 bytes with its terminator): a line of the current zone
     ('fill', 3, 0x55), ('fill', 0, 1), ('zero', 2), ('zerountil', 9), ('zerountil', ('lab', 'K1')),
     ('org', 5, None), ('org', 0x10, None), ('org', 2, 'zz'),
     ('align', 4), ('align', None), ('align', 10),
@@ -38,7 +39,7 @@ CORE = [s for s in SIGMA if s not in (('label', '_f0'), ('brr', ('lab', 'G1')), 
 
 def isa_of(p):
     return probe_isa(p.address_size, p.endian, origin=p.origin or None, page_size=p.page_size if p.page_size != 1 else None,
-                     zones=p.zones)
+                     zones=p.zones, embedded_strings=True)
 
 
 def meta(tier):
@@ -90,7 +91,7 @@ def build(hist):
 
 
 def moving(hist):
-    return any(s[0] in ('org', 'align', 'memzone', 'fill', 'zero', 'zerountil', 'm2') for s in hist) and \
+    return any(s[0] in ('org', 'align', 'memzone', 'fill', 'zero', 'zerountil', 'm2', 'rawbytes') for s in hist) and \
         any(s[0] in ('jmp', 'brr', 'data') for s in hist)
 
 
